@@ -1008,6 +1008,24 @@ var scenarioTable = map[string]func(s *sc){
 		s.flush(func(p pending, k string) bool { return k == "VC" && p.to == 1 })
 		s.flush(any)
 	},
+	// C05 (seeded change R01): nothing of view 0 arrives.  The Byzantine n3, leader of view 1003, sends every correct member a NEW_VIEW for
+	// that far view, properly signed, with two genuine-looking votes of its own making only (no quorum): rejected - and it must leave no
+	// trace: the elections of the views below it still have to take place (a member that remembered "view 1003 handled" would never
+	// let an honest leader be elected again).  Then everybody times out; stabilisation finds them in view 1.
+	"rejected_new_view_for_a_far_view_must_not_block_the_elections_below_it": func(s *sc) {
+		s.startNodes()
+		s.dropAll(any)
+		x := s.adv.newBody(s.run, 1, false)
+		votes := []*protocol.ViewChangeMessageContentBuilder{s.byzVote(1, 1003, 3)}
+		d := nvD{inst: clusterInstance, h: 1, v: 1003, sender: s.cl.ids[3], votes: votes, pp: ref(protocol.LEAN_HELIX_PREPREPARE, 1, 1003, x), ppBy: s.cl.ids[3]}
+		for _, i := range []int{0, 1, 2} {
+			s.inject(i, s.adv.mkNV(d, x), "nv_too_few_votes")
+		}
+		for _, i := range []int{0, 1, 2} {
+			s.timeout(i)
+		}
+		s.dropAll(any)
+	},
 	// C05 (seeded change Q06): nothing of view 0 arrives; the transport reports a FAILURE for n2's VIEW_CHANGE to the leader of view 1;
 	// n0 and n1 time out as well (Byzantine n3 silent).  n2's vote is lost, but n2 itself must be in view 1 with its timer armed: the
 	// two others cannot elect anybody without it, so a member that left the election without a timer stalls the height for ever.
@@ -1247,7 +1265,7 @@ func scenarioByz(name string) []int {
 	case "lagging_member_with_foreign_instance_prepare_in_its_future_cache", "byzantine_commit_for_another_hash_before_two_genuine_commits",
 		"byzantine_commit_with_share_copied_from_a_genuine_commit", "vote_with_genuine_proof_and_another_block_to_a_leader_holding_the_proposal",
 		"commit_broadcast_fails_when_becoming_prepared_then_timeout", "new_view_broadcast_reports_a_failure_then_votes_of_that_view_arrive_again",
-		"view_change_send_fails_at_a_member_whose_vote_every_later_election_needs":
+		"view_change_send_fails_at_a_member_whose_vote_every_later_election_needs", "rejected_new_view_for_a_far_view_must_not_block_the_elections_below_it":
 		return []int{3}
 	case "member_without_weight_leads_its_view":
 		return []int{4}
